@@ -189,6 +189,21 @@ class World:
         self.config.apply_context()
         if not cfg.get('skip_users'):
             self.run_coro(self._add_users())
+            if self.backend == 'maildir' and cfg.get('keywords'):
+                # pre-seeded dovecot-keywords in every user's INBOX
+                for user in self.users:
+                    home = os.path.join(self.scratch, 'base', user.get(
+                        'mailbox_path', user['name']))
+                    # through SimFS, so that the directories carry virtual
+                    # mtimes like everything the backend creates itself
+                    for sub in ('', 'cur', 'new', 'tmp'):
+                        path = os.path.join(home, sub)
+                        if not os.path.isdir(path):
+                            self.fs.os.mkdir(path, 0o700)
+                    with self.fs.open(os.path.join(home, 'dovecot-keywords'),
+                                      'w') as fp:
+                        for i, kw in enumerate(cfg['keywords']):
+                            fp.write('%d %s\n' % (i, kw))
         from pymap.imap import IMAPServer
         from pymap.sieve.manage import ManageSieveServer
         self.imap_server = IMAPServer(self.login, self.config)
